@@ -90,6 +90,9 @@ ISO_EXT = {  # imported type -> (import line, usable as map key, orderable by co
     "ext1.Pub": ('ext1 "sites/ext1/ext"', False),
     "ext1.Key": ('ext1 "sites/ext1/ext"', True),
     "ext2.A": ('ext2 "sites/ext2/ext"', False),
+    # an import path with an element that merely ENDS in "vendor": the generated import must name it in full
+    "cat.Item": ('"sites/myvendor/cat"', False),
+    "cat.Code": ('"sites/myvendor/cat"', True),
 }
 ISO_SHAPES = ["map[E]int", "map[string]E", "map[E]E", "[]E", "[2]E", "struct {\n\tF E\n}", "struct {\n\tF *E\n}", "struct {\n\tF []E\n\tG int\n}",
               "struct {\n\tF map[E]bool\n}", "struct {\n\tF map[int]E\n}", "[]*E", "map[E][]string"]
